@@ -5,3 +5,4 @@ CONSTANTS
 INVARIANT WellFormed
 PROPERTY ObservationsArePure
 PROPERTY ReorderKeepsColumns
+PROPERTY RefusedIsStuttering
